@@ -167,6 +167,8 @@ class Builder:
     def spec(self, doc):
         if doc[0] == "L":
             return self.leaf_spec(doc[1])
+        if doc[0] == "A":
+            return [self.spec(d) for d in doc[1]]
         return {k: self.spec(d) for k, d in doc[1]}
 
 
@@ -182,12 +184,18 @@ def leaf_tree(leaf):
 def doc_tree(doc):
     if doc[0] == "L":
         return leaf_tree(doc[1])
+    if doc[0] == "A":       # celpy: a list literal with a failing item is itself an error value
+        items = [doc_tree(d) for d in doc[1]]
+        return ["e"] if any(i == ["e"] for i in items) else ["l", items]
     return ["m", [[["s", k], doc_tree(d)] for k, d in doc[1]]]
 
 
 def doc_leaves(doc):
     if doc[0] == "L":
         yield doc[1]
+    elif doc[0] == "A":
+        for d in doc[1]:
+            yield from doc_leaves(d)
     else:
         for _, d in doc[1]:
             yield from doc_leaves(d)
@@ -205,9 +213,29 @@ def failing(leaf) -> bool:
 # running the real code
 # --------------------------------------------------------------------------
 
+def walk_has_error(v, depth=0) -> bool:
+    """Independent walker: is there a CELEvalError object anywhere in this Python value?
+    (dict keys and values, list/tuple/set/frozenset/deque items, object attributes)"""
+    import collections
+    import celpy
+    if isinstance(v, celpy.CELEvalError):
+        return True
+    if v is None or isinstance(v, (str, bytes, bytearray, int, float, complex, type)) or depth > 200:
+        return False
+    if isinstance(v, dict):
+        return any(walk_has_error(k, depth + 1) or walk_has_error(x, depth + 1) for k, x in v.items())
+    if isinstance(v, (list, tuple, set, frozenset, collections.deque)):
+        return any(walk_has_error(x, depth + 1) for x in v)
+    d = getattr(v, "__dict__", None)
+    if isinstance(d, dict) and not isinstance(v, BaseException):
+        return any(walk_has_error(x, depth + 1) for x in d.values())
+    return False
+
+
 @contextlib.contextmanager
 def recording():
-    """Record what celpy's Runner.evaluate does, per call: (runner, kind, tree)."""
+    """Record what celpy's Runner.evaluate does, per call: (runner, ["raise"] | ["raise_other"] |
+    ["val", tree, independent-walker-found-an-error])."""
     import celpy
     log = []
     orig = celpy.InterpretedRunner.evaluate
@@ -221,7 +249,7 @@ def recording():
         except BaseException:
             log.append((self, ["raise_other"]))
             raise
-        log.append((self, ["val", tree_of(v)]))
+        log.append((self, ["val", tree_of(v), walk_has_error(v)]))
         return v
 
     celpy.InterpretedRunner.evaluate = wrapped
@@ -343,12 +371,14 @@ def run_vf(case):
     if not (isinstance(prepared, tuple) and isinstance(prepared[0], ValueFunction)):
         return None
     fn = prepared[0]
-    inputs = celpy.json_to_cel(b.inputs)
+    inputs = celpy.json_to_cel(dict(case.get("inputs") or {}, **b.inputs))
     base = celpy.json_to_cel(case["base"]) if case.get("base") is not None else None
+    leak = False
     with recording() as log:
         try:
             r = run_async(reconcile_value_function(LOC, fn, inputs, base))
             obs = observe(r)
+            leak = walk_has_error(r) or walk_has_error(getattr(r, "__dict__", None))
             if obs == ["none"]:         # a function's None result is the value null
                 obs = ["val", ["n"]]
         except Exception as e:
@@ -365,7 +395,7 @@ def run_vf(case):
         s = site_of.get(id(rn), "?")
         trace.append(s)
         raws[s] = x
-    return {"obs": obs, "trace": trace, "raws": raws,
+    return {"obs": obs, "trace": trace, "raws": raws, "leak": leak,
             "has": {"pre": fn.preconditions is not None, "locals": fn.local_values is not None,
                     "return": fn.return_value is not None},
             "index": fn.return_value.value_index if fn.return_value is not None else None}
